@@ -178,6 +178,8 @@ def labelings(case):
 @register
 class CHECK(Check):
     pid = "C09"
+    module = "FairModel.Properties.C09X"  # base file + composition theorems (same namespace)
+    cross = (("grid", {"X1.grid-selection"}),)
     technique = ("Lean 4 theorems over the Grid model, which is DEFINED over expressions lifted from the source on every run "
                  "(Generated/GridSrc.lean: lattice recursion, search loop, truncation, scaling, clipping, basis map order, "
                  "relabelling, trade-off loss, arg-min, delegation) + compiled-driver correspondence with GridSearch.fit/predict "
